@@ -493,6 +493,7 @@ pub struct SchedStats {
     pub with_cmp_ord_stack: u64,
     pub with_string_stack: u64,
     pub max_trace_len_at_collection: u64,
+    pub max_trace_len: u64,
     pub state_kinds_seen: BTreeSet<u64>,
     pub state_kinds_collected_after: BTreeSet<u64>,
     pub audits_requested: u64,
@@ -533,6 +534,7 @@ impl Sched {
         if self.track_kinds && pt.state_kind != 0 {
             self.stats.state_kinds_seen.insert(pt.state_kind);
         }
+        self.stats.max_trace_len = self.stats.max_trace_len.max(pt.trace_len as u64);
         let grew = pt.num_objects > self.last_objects;
         self.last_objects = pt.num_objects;
         let collect = match &self.mode {
